@@ -2,7 +2,7 @@ SPECIFICATION MCSpec
 VIEW View
 CONSTANTS
   Streams = {1, 3}
-  Role = "server"
+  Role = "client"
   Bud <- BudQuick
   MaxInq = 2
   MaxBurst = 2
@@ -11,7 +11,7 @@ CONSTANTS
   AckVals = {100, 101}
   GoAwayIds = {0, 2147483647}
   Codes = {0, 11}
-  AbruptCodes = {2}
+  AbruptCodes = {}
   AllowEof = TRUE
   LocalVals = {1}
   HarnessPing = FALSE
